@@ -9,7 +9,7 @@ import itertools, json
 from fractions import Fraction as F
 from .common import load_votekit, rat, groups, bag_json, state_json, scores_json, quiet, Machinery, RAT_BOUND
 from . import rng
-from .rng import EX, TooManyPaths
+from .rng import EX, TooManyPaths, ReplayDiverged
 
 load_votekit()
 from votekit import Ballot, PreferenceProfile  # noqa: E402
@@ -215,6 +215,11 @@ def record(cfg, cands, ballots, mode="explore", max_paths=400, names=None, cand_
     except TooManyPaths:
         return record(cfg, cands, ballots, "real", names=names, cand_order=cand_order, seed=seed)[0], \
             {"paths": len(paths), "explored": False, "too_many": True}
+    except ReplayDiverged:
+        # the code consulted a random primitive the scripted source does not model: its runs cannot be enumerated.  Not a verdict:
+        # fall back to one seeded real run (validated by TLC without probability labels) and say so in the trace info.
+        return record(cfg, cands, ballots, "real", names=names, cand_order=cand_order, seed=seed)[0], \
+            {"paths": len(paths), "explored": False, "unscripted_randomness": True}
     # trie of abstract event sequences with exact probabilities
     prefix_p = {}
     for events, pr in paths:
